@@ -137,11 +137,31 @@ func genC38(t *rapid.T) c38Case {
 			continue
 		}
 		used[n] = true
-		c.Labels = append(c.Labels, [2]string{n, rapid.SampledFrom(c38Values).Draw(t, "lvalue")})
+		v := rapid.SampledFrom(c38Values).Draw(t, "lvalue")
+		if rapid.IntRange(0, 9).Draw(t, "lempty") == 0 {
+			// an input label with an empty value (discovery hands such labels to relabeling):
+			// documented to be the same as a missing label
+			v = ""
+		}
+		c.Labels = append(c.Labels, [2]string{n, v})
 	}
 	sort.Slice(c.Labels, func(i, j int) bool { return c.Labels[i][0] < c.Labels[j][0] })
 
-	nr := rapid.IntRange(1, 6).Draw(t, "nrules")
+	// Two cases in three concentrate the rules on two or three "hot" label names, so that chains
+	// which clear, clear again, rewrite and then read one label (every order of those) are common.
+	var hot []string
+	if rapid.IntRange(0, 2).Draw(t, "hot") > 0 {
+		for len(hot) < 3 {
+			hot = append(hot, rapid.SampledFrom(c38LegacyNames).Draw(t, "hotname"))
+		}
+	}
+	pick := func(list []string, label string) string {
+		if len(hot) > 0 && rapid.IntRange(0, 3).Draw(t, label+"hot") > 0 {
+			return rapid.SampledFrom(hot).Draw(t, label+"h")
+		}
+		return rapid.SampledFrom(list).Draw(t, label)
+	}
+	nr := rapid.IntRange(1, 8).Draw(t, "nrules")
 	for i := 0; i < nr; i++ {
 		r := c38Rule{Action: rapid.SampledFrom([]string{
 			"replace", "replace", "replace", "replace", "keep", "drop", "keepequal", "dropequal", "hashmod",
@@ -158,7 +178,7 @@ func genC38(t *rapid.T) c38Case {
 		src := func() {
 			n := rapid.IntRange(0, 3).Draw(t, "nsrc")
 			for j := 0; j < n; j++ {
-				r.Source = append(r.Source, rapid.SampledFrom(c38Names).Draw(t, "src"))
+				r.Source = append(r.Source, pick(c38Names, "src"))
 			}
 		}
 		sep := func() {
@@ -185,7 +205,7 @@ func genC38(t *rapid.T) c38Case {
 					r.Target = rapid.SampledFrom(c38UTF8Targets).Draw(t, "ttarget")
 				}
 			} else {
-				r.Target = rapid.SampledFrom(names).Draw(t, "target")
+				r.Target = pick(names, "target")
 			}
 			if rapid.IntRange(0, 3).Draw(t, "replset") > 0 {
 				r.ReplSet = true
@@ -197,11 +217,11 @@ func genC38(t *rapid.T) c38Case {
 			rx(9)
 		case "keepequal", "dropequal":
 			src()
-			r.Target = rapid.SampledFrom(names).Draw(t, "target")
+			r.Target = pick(names, "target")
 		case "hashmod":
 			src()
 			sep()
-			r.Target = rapid.SampledFrom(names).Draw(t, "target")
+			r.Target = pick(names, "target")
 			r.Modulus = rapid.SampledFrom(c38Moduli).Draw(t, "mod")
 		case "labelmap":
 			rx(9)
@@ -212,7 +232,7 @@ func genC38(t *rapid.T) c38Case {
 		case "lowercase", "uppercase":
 			src()
 			sep()
-			r.Target = rapid.SampledFrom(names).Draw(t, "target")
+			r.Target = pick(names, "target")
 		}
 		c.Rules = append(c.Rules, r)
 	}
@@ -231,7 +251,7 @@ func genC38(t *rapid.T) c38Case {
 }
 
 func c38Simulate(c c38Case) *c38Ref {
-	ref := &c38Ref{m: c.Labels.Map(), written: map[string]bool{}}
+	ref := &c38Ref{m: c38Input(c), written: map[string]bool{}}
 	for _, rule := range c.Rules {
 		if !ref.apply(rule, c.Scheme) {
 			break
@@ -459,6 +479,18 @@ func c38Render(m map[string]string) string {
 
 // c38Compare checks a real result against the reference map: same pairs, strictly
 // ascending names, no empty values.
+// c38Input is the input label set as the reference sees it: a label with an empty value is the
+// same as a missing label (documented in model/labels and in the relabeling documentation).
+func c38Input(c c38Case) map[string]string {
+	m := map[string]string{}
+	for _, p := range c.Labels {
+		if p[1] != "" {
+			m[p[0]] = p[1]
+		}
+	}
+	return m
+}
+
 func c38Compare(got labels.Labels, want map[string]string) string {
 	var prev string
 	i := 0
@@ -502,7 +534,7 @@ func runC38(c c38Case, r *ev.Rec) error {
 	in := c.Labels.Labels()
 
 	// reference
-	ref := &c38Ref{m: c.Labels.Map(), written: map[string]bool{}}
+	ref := &c38Ref{m: c38Input(c), written: map[string]bool{}}
 	wantKeep := true
 	stepMaps := make([]map[string]string, 0, len(c.Rules))
 	for _, rule := range c.Rules {
@@ -568,8 +600,8 @@ func runC38(c c38Case, r *ev.Rec) error {
 		}
 	}
 	// the input label set must not have been modified
-	if p := c38Compare(in, c.Labels.Map()); p != "" {
-		return ev.Failf("input label set was modified: %s\n%s", p, describe())
+	if !labels.Equal(in, c.Labels.Labels()) {
+		return ev.Failf("input label set was modified: now %s\n%s", in.String(), describe())
 	}
 
 	for _, rule := range c.Rules {
